@@ -211,11 +211,12 @@ fn all_configs(n: usize, max_workers: usize, extra_bits: bool) -> Vec<Vec<u64>> 
 pub fn run(rep: &mut Report) {
     let thorough = rep.is_thorough();
     let start = std::time::Instant::now();
-    let budget = if thorough { 900.0 } else { 40.0 };
+    let budget = if thorough { 1800.0 } else { 120.0 };
     let mut configs = 0u64;
     rep.exhaustive = true;
-    'outer: for n in 1..=(if thorough { 5 } else { 4 }) {
-        let workers = if n <= 3 { 3 } else if thorough || n <= 4 { 2 } else { 1 };
+    'outer: for n in 1..=(if thorough { 6 } else { 4 }) {
+        // thorough: every assignment of up to 5 queues to up to 3 workers, of 6 queues to up to 2
+        let workers = if thorough { if n <= 5 { 3 } else { 2 } } else if n <= 3 { 3 } else { 2 };
         let mut cfgs = all_configs(n, workers, n <= 3);
         if !thorough && n == 4 {
             // pairs at n = 4: keep masks with distinct or overlapping structure
@@ -242,7 +243,7 @@ pub fn run(rep: &mut Report) {
     rep.extra.insert("configurations".into(), json!(configs));
     rep.sample(json!({"queues":3,"masks":["0b101","0b010"],"kicked":2,"expect":{"thread":0,"event":1,"ring_size":8}}));
     rep.sample(json!({"queues":2,"masks":["0b11"],"listener_id":65537,"expect":"refused, or delivered with exactly id 65537"}));
-    rep.rule = "all assignments of n queues to worker masks drawn from all non-empty subsets of n bits (plus masks with bits beyond n for n<=3): 1..=3 workers for n<=3, 1..=2 for n=4 (and 5 at thorough); every ring started and enabled with a distinct size, every queue kicked once, barrier on every worker; custom listener ids {0..5, 255, 256, 65535, 65536, 65537, 65538, 2^32+1, 2^32+5, 2^64-1} on two configurations. Non-trivial = kicks whose (thread id, event id, vrings[event id] identity) were verified, listeners delivered with their exact id or refused".into();
+    rep.rule = "all assignments of n queues to worker masks drawn from all non-empty subsets of n bits (plus masks with bits beyond n for n<=3): 1..=3 workers for n<=3, 1..=2 for n=4 (a structured subset of the pairs at quick); thorough: 1..=3 workers for every n<=5 and 1..=2 workers for n=6; every ring started and enabled with a distinct size, every queue kicked once, barrier on every worker; custom listener ids {0..5, 255, 256, 65535, 65536, 65537, 65538, 2^32+1, 2^32+5, 2^64-1} on two configurations. Non-trivial = kicks whose (thread id, event id, vrings[event id] identity) were verified, listeners delivered with their exact id or refused".into();
     rep.assumptions.push("rings are distinguished by their configured size (2 << q)".into());
 }
 
